@@ -477,6 +477,87 @@ def _reference():
     return _REFERENCE[0]
 
 
+def lower_release_callables(tree):
+    """a local that is bound either to `<h>.close` (the handle was opened here) or to a module-level function that does nothing
+    (the handle is the caller's), and is only ever called without arguments, is a flag in disguise: `r = h.close` becomes
+    `r__owned = True`, `r = _noop` becomes `r__owned = False` and `r()` becomes `if r__owned: h.close()`.  h must be one name per
+    binding that is not re-bound afterwards."""
+    noops = set()
+    for f in tree.body:
+        if isinstance(f, ast.FunctionDef) and not f.args.args and not f.args.vararg and not f.args.kwarg and not f.args.kwonlyargs \
+                and all(isinstance(st, ast.Pass) or (isinstance(st, ast.Expr) and isinstance(st.value, ast.Constant)) or (
+                    isinstance(st, ast.Return) and (st.value is None or (isinstance(st.value, ast.Constant) and st.value.value is None))) for st in f.body):
+            noops.add(f.name)
+    n = 0
+    for fn in [x for x in ast.walk(tree) if isinstance(x, (ast.FunctionDef, ast.AsyncFunctionDef))]:
+        order = {id(x): i for i, x in enumerate(_preorder(fn))}
+        defs = {}
+        for st in ast.walk(fn):
+            if isinstance(st, ast.Assign) and len(st.targets) == 1 and isinstance(st.targets[0], ast.Name):
+                defs.setdefault(st.targets[0].id, []).append(st)
+        for r, dl in defs.items():
+            closing = [st for st in dl if isinstance(st.value, ast.Attribute) and st.value.attr == "close" and isinstance(st.value.value, ast.Name)]
+            nothing = [st for st in dl if isinstance(st.value, ast.Name) and st.value.id in noops]
+            if not closing or len(closing) + len(nothing) != len(dl):
+                continue
+            stores = [x for x in ast.walk(fn) if isinstance(x, ast.Name) and x.id == r and isinstance(x.ctx, (ast.Store, ast.Del))]
+            if len(stores) != len(dl):
+                continue
+            loads = [x for x in ast.walk(fn) if isinstance(x, ast.Name) and x.id == r and isinstance(x.ctx, ast.Load)]
+            calls = [c for c in ast.walk(fn) if isinstance(c, ast.Call) and isinstance(c.func, ast.Name) and c.func.id == r and not c.args and not c.keywords
+                     and isinstance(getattr(c, "_stmt", None) or c, ast.AST)]
+            call_stmts = [st for st in ast.walk(fn) if isinstance(st, ast.Expr) and isinstance(st.value, ast.Call) and any(st.value is c for c in calls)]
+            if not loads or len(loads) != len(calls) or len(call_stmts) != len(calls):
+                continue
+            handles = {st.value.value.id for st in closing}
+            last_def = max(order[id(st)] for st in dl)
+            if any(isinstance(x, ast.Name) and x.id in handles and isinstance(x.ctx, (ast.Store, ast.Del)) and order[id(x)] > last_def
+                   for x in ast.walk(fn)):
+                continue
+            # one handle variable visible at the call: if the closing bindings name different temporaries that are copied into a
+            # common name right away (`s1 = open(..); stream = s1; r = s1.close`), use the common name
+            h = None
+            if len(handles) == 1:
+                h = next(iter(handles))
+            if h is None:
+                continue
+            copies = [st for st in ast.walk(fn) if isinstance(st, ast.Assign) and len(st.targets) == 1 and isinstance(st.targets[0], ast.Name)
+                      and isinstance(st.value, ast.Name) and st.value.id == h]
+            hname = copies[0].targets[0].id if len(copies) == 1 and order[id(copies[0])] < last_def else h
+            if hname != h:
+                # `tmp = open(..); x = tmp; r = tmp.close` (tmp an inliner temporary read nowhere else): x is the handle variable
+                other_loads = [x for x in ast.walk(fn) if isinstance(x, ast.Name) and x.id == h and isinstance(x.ctx, ast.Load)
+                               and x is not copies[0].value and not any(x is st.value.value for st in closing)]
+                hstores = [x for x in ast.walk(fn) if isinstance(x, ast.Name) and x.id == h and isinstance(x.ctx, ast.Store)]
+                if not other_loads and len(hstores) == 1 and "__" in h:
+                    hstores[0].id = hname
+                    copies[0].value.id = hname          # becomes `x = x`, removed by drop_self_assignments
+                else:
+                    hname = h
+            flag = "%s__owned" % r
+            for st in closing:
+                st.targets[0].id = flag
+                st.value = ast.copy_location(ast.Constant(value=True), st.value)
+            for st in nothing:
+                st.targets[0].id = flag
+                st.value = ast.copy_location(ast.Constant(value=False), st.value)
+
+            def blockfn(stmts, call_stmts=call_stmts, flag=flag, hname=hname):
+                out = []
+                for st in stmts:
+                    if any(st is c for c in call_stmts):
+                        close = ast.Expr(value=ast.Call(func=ast.Attribute(value=ast.Name(id=hname, ctx=ast.Load()), attr="close", ctx=ast.Load()),
+                                                        args=[], keywords=[]))
+                        out.append(ast.copy_location(ast.If(test=ast.Name(id=flag, ctx=ast.Load()), body=[ast.copy_location(close, st)], orelse=[]), st))
+                    else:
+                        out.append(st)
+                return out
+            _map_blocks(fn, blockfn)
+            ast.fix_missing_locations(fn)
+            n += 1
+    return n
+
+
 def resugar_tail_returns(tree):
     """what the inliner leaves behind for `return helper(..)`: an if/try tree whose every tail is `__ret_x = E`, followed by
     `return __ret_x`, becomes the tree with `return E` in its tails again; `try: ..; __tryval = E except ..: .. else: return
@@ -758,6 +839,9 @@ def inline_helpers(tree, extern=None, modname=None):
             if isinstance(st, ast.Try):
                 for h in st.handlers:
                     h.body = process_block(h.body, cls_name, self_fn)
+            if isinstance(st, ast.FunctionDef) and st is not self_fn:
+                # a closure: helper calls inside it are expanded like anywhere else
+                st.body = process_block(st.body, cls_name, st)
             if isinstance(st, (ast.FunctionDef, ast.ClassDef)):
                 out.append(st)
                 continue
@@ -3496,6 +3580,7 @@ def normalize(tree, extern=None, modname=None):
     stats["tail_returns"] = resugar_tail_returns(tree)
     stats["records"] += scalarize_local_records(tree)      # records built by helpers that were just expanded
     stats["expr_inlined"] = inline_expression_helpers(tree, extern)
+    stats["release_callables"] = lower_release_callables(tree)
     stats["param_copies"] = propagate_param_copies(tree)
     stats["aliases"] = propagate_aliases(tree)
     stats["local_tables"] = propagate_local_tables(tree)
@@ -3772,6 +3857,19 @@ def fold_constant_strings(tree):
     n = [0]
 
     class F(ast.NodeTransformer):
+        def visit_Subscript(self, node):
+            self.generic_visit(node)
+            # ("WRAP", "", "YES", "..")[0] -> "WRAP": a constant position of a literal tuple of constants
+            if isinstance(node.ctx, ast.Load) and isinstance(node.value, ast.Tuple) and node.value.elts \
+                    and all(isinstance(e_, ast.Constant) for e_ in node.value.elts):
+                idx = node.slice.value if isinstance(node.slice, ast.Constant) and isinstance(node.slice.value, int) and not isinstance(
+                    node.slice.value, bool) else (-node.slice.operand.value if isinstance(node.slice, ast.UnaryOp) and isinstance(node.slice.op, ast.USub)
+                                                  and isinstance(node.slice.operand, ast.Constant) and isinstance(node.slice.operand.value, int) else None)
+                if idx is not None and -len(node.value.elts) <= idx < len(node.value.elts):
+                    n[0] += 1
+                    return ast.copy_location(ast.Constant(value=node.value.elts[idx].value), node)
+            return node
+
         def visit_BinOp(self, node):
             self.generic_visit(node)
             if isinstance(node.op, ast.Add) and isinstance(node.left, ast.Constant) and isinstance(node.right, ast.Constant) \
